@@ -276,27 +276,66 @@ def marked(text):
     return [l[2:] for l in text.splitlines() if l.startswith("@@")]
 
 
+REAL_TIME_SUITES = ("life ", "slife ", "net ", "tls ", "pty ", "ffi ")
+
+
+def case_budget(cases):
+    """seconds of wall time the harness watchdog grants one case: virtual-time cases take
+    milliseconds (the transaction-id wrap scripts a few seconds), real-time cases up to ~20 s"""
+    if any(c.startswith(REAL_TIME_SUITES) for c in cases[:50]):
+        return 60
+    return 30 if any(len(c) > 200000 for c in cases[:200]) else 8
+
+
+def run_harness(binp, cases, timeout=7200):
+    """One harness process over `cases`, restarted on what is left whenever it ends early: the
+    watchdog of the harness ends the process with exit code 3 after printing `hung` for the case
+    that did not return; any other early end (abort, allocation failure) is recorded as
+    `harness-died` for the case it was running.  Lines already printed stay valid."""
+    out, rest, restarts, hangs = [], list(cases), 0, 0
+    env = dict(ENV, VERIF_CASE_TIMEOUT=str(case_budget(cases)))
+    while rest:
+        try:
+            p = subprocess.run([binp], input="\n".join(rest) + "\n", stdout=subprocess.PIPE, stderr=subprocess.STDOUT,
+                               text=True, env=env, timeout=timeout)
+            rc, o = p.returncode, p.stdout
+        except subprocess.TimeoutExpired:
+            out += ["harness-died"] * len(rest)
+            break
+        lines = marked(o)[:len(rest)]
+        if rc == 0 and len(lines) == len(rest):
+            out += lines
+            break
+        restarts += 1
+        out += lines
+        k = len(lines)
+        if not (rc == 3 and lines and lines[-1] == "hung") and k < len(rest):
+            out.append("harness-died")
+            k += 1
+        rest = rest[k:]
+        if rc == 3:
+            hangs += 1
+        if restarts > 200 or hangs >= 6:
+            # enough evidence: do not spend a watchdog period on every further case
+            out += ["not-run-after-hangs" if hangs >= 6 else "harness-died"] * len(rest)
+            break
+    return out
+
+
+def run_blocks(binp, cases, blocks):
+    """contiguous (order-preserving) blocks of cases in parallel harness processes"""
+    import concurrent.futures
+    res = []
+    with concurrent.futures.ThreadPoolExecutor(max_workers=max(1, len(blocks))) as ex:
+        for r in ex.map(lambda b: run_harness(binp, b) if b else [], blocks):
+            res.append(r)
+    return res
+
+
 def run_parallel(binp, cases, jobs):
     """real-time suites: split the case list over several harness processes"""
-    import concurrent.futures
     chunks = [cases[i::jobs] for i in range(jobs)]
-    outs = [None] * jobs
-
-    def work(k):
-        if not chunks[k]:
-            return []
-        rc, o = run([binp], inp="\n".join(chunks[k]) + "\n", timeout=7200)
-        ol = marked(o)
-        if rc != 0 or len(ol) != len(chunks[k]):
-            ol = []
-            for c in chunks[k]:
-                rc1, o1 = run([binp], inp=c + "\n", timeout=600)
-                l1 = marked(o1)
-                ol.append(l1[0] if rc1 == 0 and len(l1) == 1 else "harness-died")
-        return ol
-    with concurrent.futures.ThreadPoolExecutor(max_workers=jobs) as ex:
-        for k, res in enumerate(ex.map(work, range(jobs))):
-            outs[k] = res
+    outs = run_blocks(binp, cases, chunks)
     merged = [None] * len(cases)
     for k in range(jobs):
         for j, line in enumerate(outs[k]):
@@ -333,44 +372,18 @@ def run_driver(cases):
 
 def run_cases(cases, which="core", jobs=1):
     """returns (impl lines, model lines, spec lines)"""
-    inp = "\n".join(cases) + "\n"
     binp = FFI_BIN if which == "ffi" else HARNESS_BIN
     if jobs > 1 and len(cases) > 1:
         impl_lines = run_parallel(binp, cases, jobs)
-        rc = 0
     elif len(cases) >= 8000:
         # virtual-time suites: every case runs in a fresh runtime, so contiguous blocks can run in
         # parallel processes without changing any result
-        import concurrent.futures
         nblk = min(12, (len(cases) + 3999) // 4000)
         size = (len(cases) + nblk - 1) // nblk
         blocks = [cases[i:i + size] for i in range(0, len(cases), size)]
-
-        def work(blk):
-            rc1, o1 = run([binp], inp="\n".join(blk) + "\n", timeout=7200)
-            ol = marked(o1)
-            if rc1 != 0 or len(ol) != len(blk):
-                ol = []
-                for c in blk:
-                    rc2, o2 = run([binp], inp=c + "\n", timeout=600)
-                    l2 = marked(o2)
-                    ol.append(l2[0] if rc2 == 0 and len(l2) == 1 else "harness-died")
-            return ol
-        impl_lines = []
-        with concurrent.futures.ThreadPoolExecutor(max_workers=nblk) as ex:
-            for res in ex.map(work, blocks):
-                impl_lines.extend(res)
-        rc = 0
+        impl_lines = [l for blk in run_blocks(binp, cases, blocks) for l in blk]
     else:
-        rc, impl = run([binp], inp=inp, timeout=3600)
-        impl_lines = marked(impl)
-    if rc != 0 or len(impl_lines) != len(cases):
-        # the harness died (abort / alloc failure): bisect to keep the other cases
-        impl_lines = []
-        for c in cases:
-            rc1, o = run([binp], inp=c + "\n", timeout=600)
-            ol = marked(o)
-            impl_lines.append(ol[0] if rc1 == 0 and len(ol) == 1 else "harness-died")
+        impl_lines = run_harness(binp, cases)
     # `pty` cases: the expected value comes from the model of the corresponding in-memory session
     # (tools/pty_xlate.py); every alternative the model admits is translated
     xl = [c.startswith("pty ") for c in cases]
@@ -406,7 +419,8 @@ def shrink(case, still_fails):
     if len(steps) <= 1:
         return case
     n = 2
-    while len(steps) >= 2:
+    t_end = time.time() + 180      # shrinking is a convenience: bounded, a hung case costs a watchdog period per try
+    while len(steps) >= 2 and time.time() < t_end:
         size = max(1, len(steps) // n)
         reduced = False
         for i in range(0, len(steps), size):
@@ -529,6 +543,9 @@ def main():
                     log(f"real-time suite {s.get('gen')}: {retried} outlier(s) re-run alone")
             evaluations += len(cases)
             for c, i, m, sp in zip(cases, impl, model, spec):
+                if i == "not-run-after-hangs":
+                    dist["not run (harness stopped after repeated hangs)"] += 1
+                    continue
                 for k in cfg["classify"](c, i):
                     dist[k] += 1
                 if cfg["nontrivial"](c, i):
